@@ -291,7 +291,7 @@ impl Run {
         json!({"ok": false, "err": 0, "werr": "none", "flags": [], "ctr": {"hi": -1, "lo": 0}, "cred": "none", "user": "none", "rphash": "none",
                "sigkey": "none", "at": false, "ed": false, "wf": true, "attid": "none", "idlen": 0, "fresh": true,
                "cose": {"labels": [], "kty": 0, "alg": 0, "crv": 0, "point": false},
-               "stored": no_cred(), "keymatch": false, "fmt": "none", "digest": "none",
+               "stored": no_cred(), "keymatch": false, "fmt": "none", "digest": "none", "info": no_info(),
                "prfEnabled": "absent", "prf1": {"sec": "absent", "salt": "absent"}, "prf2": {"sec": "absent", "salt": "absent"},
                "client": no_client(), "leaks": []})
     }
@@ -531,6 +531,7 @@ impl Run {
                         let mut d = Self::end_default();
                         d["ok"] = json!(true);
                         d["digest"] = json!(hex(&bytes));
+                        d["info"] = info_json(&bytes);
                         d["leaks"] = self.leak_scan(vec![("getInfo response (CBOR)".into(), bytes.clone()),
                                                          ("getInfo response (Debug)".into(), format!("{r:?}").into_bytes())]);
                         json!({"ev": "End", "d": d})
@@ -555,6 +556,36 @@ impl Run {
     pub fn take_log(&mut self) -> Vec<Value> {
         std::mem::take(&mut self.sh.lock().unwrap().log)
     }
+}
+
+pub fn no_info() -> Value {
+    json!({"versions": [], "exts": [], "rk": false, "up": false, "uv": "absent", "plat": false, "clientPin": "absent",
+           "transports": [], "maxMsgSize": false, "pinProtocols": false})
+}
+
+/// the authenticatorGetInfo response as the abstract record of Ceremony!InfoOf, read from its CBOR encoding
+pub fn info_json(bytes: &[u8]) -> Value {
+    use ciborium::value::Value as Cbor;
+    let mut v = no_info();
+    let Ok(Cbor::Map(m)) = ciborium::de::from_reader::<Cbor, _>(bytes) else { return v };
+    let get = |k: i64| m.iter().find(|(kk, _)| kk.as_integer().and_then(|i| i64::try_from(i).ok()) == Some(k)).map(|(_, x)| x);
+    let texts = |x: Option<&Cbor>| -> Vec<String> {
+        x.and_then(|a| a.as_array()).map(|a| a.iter().filter_map(|t| t.as_text().map(|s| s.to_string())).collect()).unwrap_or_default()
+    };
+    v["versions"] = json!(texts(get(1)));
+    v["exts"] = json!(texts(get(2)));
+    v["transports"] = json!(texts(get(9)));
+    v["maxMsgSize"] = json!(get(5).is_some());
+    v["pinProtocols"] = json!(get(6).is_some());
+    if let Some(Cbor::Map(o)) = get(4) {
+        let b = |name: &str| o.iter().find(|(k, _)| k.as_text() == Some(name)).and_then(|(_, x)| x.as_bool());
+        v["rk"] = json!(b("rk").unwrap_or(false));
+        v["up"] = json!(b("up").unwrap_or(true));
+        v["plat"] = json!(b("plat").unwrap_or(false));
+        v["uv"] = json!(match b("uv") { Some(true) => "true", Some(false) => "false", None => "absent" });
+        v["clientPin"] = json!(match b("clientPin") { Some(true) => "true", Some(false) => "false", None => "absent" });
+    }
+    v
 }
 
 pub fn no_client() -> Value {
